@@ -16,7 +16,10 @@
 
 package env
 
-import "strings"
+import (
+	"sort"
+	"strings"
+)
 
 // ExpandEnvWithDefault expands template variables with optional default for {}
 func ExpandEnvWithDefault(template string, envs map[string]string, defaultValue ...string) string {
@@ -24,24 +27,29 @@ func ExpandEnvWithDefault(template string, envs map[string]string, defaultValue 
 		return ""
 	}
 
-	result := template
+	// All variables are replaced in a single pass over the template, so that a
+	// substituted value is never expanded again (whatever the map order).
+	pairs := make([]string, 0, 2*len(envs)+2)
 
 	// Handle special case of {} - use provided default or first available file variable
-	if strings.Contains(result, "{}") {
-		defaultVal := ""
-		if len(defaultValue) > 0 && defaultValue[0] != "" {
-			defaultVal = defaultValue[0]
-		}
-		result = strings.ReplaceAll(result, "{}", defaultVal)
+	defaultVal := ""
+	if len(defaultValue) > 0 && defaultValue[0] != "" {
+		defaultVal = defaultValue[0]
 	}
+	pairs = append(pairs, "{}", defaultVal)
 
 	// Replace named variables
-	for key, value := range envs {
+	keys := make([]string, 0, len(envs))
+	for key := range envs {
 		if key != "" { // Skip empty key used for {} default
-			result = strings.ReplaceAll(result, "{"+key+"}", value)
+			keys = append(keys, key)
 		}
 	}
-	return result
+	sort.Strings(keys)
+	for _, key := range keys {
+		pairs = append(pairs, "{"+key+"}", envs[key])
+	}
+	return strings.NewReplacer(pairs...).Replace(template)
 }
 
 // ExpandEnvSlice expands template variables in a slice of strings
